@@ -1,4 +1,5 @@
 import BPT.Rust.ValidatorSound
+import BPT.Rust.BranchReach
 import BPT.Generated.Tie
 /-
   C14 — Rust validators reject every documented kind of structural damage.
@@ -13,11 +14,7 @@ open BPT BPT.Rust RawMap
 
 variable {K V : Type} [Keyed K]
 
-/-- nodes reachable from the root, with the flag "is the root" -/
-inductive Reach (m : RawMap K V) : NodeRef → Bool → Prop where
-  | root : Reach m m.root true
-  | child (id : Nat) (b : RBranch K) (r : Bool) (i : Nat) (c : NodeRef) :
-      Reach m (.branch id) r → m.getBranch id = some b → b.children[i]? = some c → Reach m c false
+-- `Reach m n isRoot` (nodes reachable from the root through child references) is defined in BPT.Rust.BranchReach
 
 /-- every reachable node satisfies the node conditions, for some interval -/
 theorem reach_ok (m : RawMap K V) (h : m.checkInvariants Cfg.repaired = .ok true) :
@@ -198,6 +195,57 @@ theorem detailed_sound_partial (m : RawMap K V) (h : m.checkDetailed Cfg.repaire
   | diverge => rw [h1] at h; simp at h
   | ub => rw [h1] at h; simp at h
 
+/-- per-node capacity fields are intact (no documented damage kind touches them) and leave room for two keys -/
+def CapsIntact (m : RawMap K V) : Prop := (∀ id l, m.getLeaf id = some l → l.cap = m.cap) ∧ 2 ≤ m.cap
+
+/-- **Soundness of `check_invariants_detailed() = Ok(())` beyond the node level**, for every raw map with intact
+    capacity fields: the walk along `next` from the leftmost leaf lists exactly the leaves the tree walk lists, in the
+    same (ascending) order, no leaf twice, and every allocated leaf slot is among them. -/
+theorem detailed_sound (m : RawMap K V) (hc : CapsIntact m) (h : m.checkDetailed Cfg.repaired = .ok none) :
+    ∃ ids first, m.leafIds = .ok ids ∧ m.firstLeaf = .ok first ∧ m.chainIds m.fuel first = .ok ids ∧
+      ids.Nodup ∧ ids.Pairwise (Before m) ∧ (∀ i, m.leaves.maskAt i = true → i ∈ ids) ∧
+      (∀ i, m.leaves.maskAt i = true → ∃ r, Reach m (.leaf i) r) ∧
+      (∀ i, m.branches.maskAt i = true → ∃ r, Reach m (.branch i) r) := by
+  obtain ⟨hroot, ⟨ks, hks, hsorted, _⟩, ⟨cnt, hcnt, hcl, hcb⟩, ⟨tids, first, cids, h1, h2, h3, h4⟩⟩ := detailed_sound_partial m h
+  obtain ⟨e1, e2, e3, e4⟩ := chain_eq_tree m hc.1 hc.2 hroot ks hks hsorted cnt hcnt hcl tids cids first h1 h2 h3 h4
+  have hcaps : CapsOK m := fun id l hg => by rw [hc.1 id l hg]; exact hc.2
+  exact ⟨tids, first, h1, h2, e1 ▸ h3, e2, e3, e4, fun i hi => leaves_reachable m tids h1 i (e4 i hi),
+    branches_reachable m hcaps hroot cnt hcnt hcb tids h1 e2⟩
+
+/-- a leaf chain that skips, truncates or misorders leaves, or leads to an unallocated slot: whenever the walk along
+    `next` does not list exactly the tree's leaves in tree order, the detailed validators return an error
+    (a cyclic chain makes them loop forever, which is not `Ok(())` either) -/
+theorem rejects_chain_damage (m : RawMap K V) (hc : CapsIntact m) (tids : List Nat) (first : Option Nat)
+    (ht : m.leafIds = .ok tids) (hf : m.firstLeaf = .ok first) (hbad : m.chainIds m.fuel first ≠ .ok tids) :
+    m.checkDetailed Cfg.repaired ≠ .ok none := by
+  intro h
+  obtain ⟨ids, first', h1, h2, h3, _⟩ := detailed_sound m hc h
+  rw [ht] at h1
+  rw [hf] at h2
+  cases h1; cases h2
+  exact hbad h3
+
+/-- an allocated node (leaf or branch) that is unreachable from the root -/
+theorem rejects_unreachable_node (m : RawMap K V) (hc : CapsIntact m) (n : NodeRef)
+    (halloc : match n with | .leaf i => m.leaves.maskAt i = true | .branch i => m.branches.maskAt i = true)
+    (horphan : ∀ r, ¬ Reach m n r) :
+    m.checkDetailed Cfg.repaired ≠ .ok none := by
+  intro h
+  obtain ⟨_, _, _, _, _, _, _, _, h7, h8⟩ := detailed_sound m hc h
+  cases n with
+  | leaf i => obtain ⟨r, hr⟩ := h7 i halloc; exact horphan r hr
+  | branch i => obtain ⟨r, hr⟩ := h8 i halloc; exact horphan r hr
+
+/-- an allocated leaf that the tree walk does not list -/
+theorem rejects_orphan_leaf (m : RawMap K V) (hc : CapsIntact m) (tids : List Nat) (ht : m.leafIds = .ok tids)
+    (i : Nat) (halloc : m.leaves.maskAt i = true) (horphan : i ∉ tids) :
+    m.checkDetailed Cfg.repaired ≠ .ok none := by
+  intro h
+  obtain ⟨ids, _, h1, _, _, _, _, h6, _⟩ := detailed_sound m hc h
+  rw [ht] at h1
+  cases h1
+  exact horphan (h6 i halloc)
+
 /-- whatever `check_invariants()` rejects, the detailed validators reject too (so every node-level damage kind is
     also refused by `validate()`, `validate_for_operation()`, `try_insert`, `try_remove`) -/
 theorem detailed_rejects_what_basic_rejects (m : RawMap K V) (h : m.checkInvariants Cfg.repaired ≠ .ok true) :
@@ -229,5 +277,39 @@ theorem Legacy.validator_accepts_empty_leaf :
     emptiedLeaf.checkDetailed { validatorChecksEmpty := false } = .ok none ∧
     emptiedLeaf.checkInvariants Cfg.repaired = .ok false ∧
     emptiedLeaf.checkDetailed Cfg.repaired = .ok (some .nodeInvariants) := by decide
+
+/-! ### the hypotheses of `detailed_sound` / `rejects_chain_damage` are met by concrete maps -/
+
+/-- root branch `[5, 9]` over leaves `A = [1, 2]`, `B = [5, 6]`, `C = [9, 10]`, capacity 4; the `next` fields are parameters -/
+def threeLeaves (nA nB nC : Nat) (extra : List (RLeaf Int Nat)) : RawMap Int Nat :=
+  { cap := 4, root := .branch 0,
+    leaves := { storage := [{ cap := 4, keys := [1, 2], vals := [10, 20], next := nA }, { cap := 4, keys := [5, 6], vals := [50, 60], next := nB },
+                            { cap := 4, keys := [9, 10], vals := [90, 100], next := nC }] ++ extra,
+                mask := [true, true, true] ++ extra.map (fun _ => true), free := [] },
+    branches := { storage := [{ cap := 4, keys := [5, 9], children := [.leaf 0, .leaf 1, .leaf 2] }], mask := [true], free := [] } }
+
+theorem threeLeaves_caps (nA nB nC : Nat) : CapsIntact (threeLeaves nA nB nC []) := by
+  refine ⟨?_, by show 2 ≤ 4; omega⟩
+  intro id l h
+  have h' := (arena_get_some _ _ _ h).2.2.2
+  match id, h' with
+  | 0, h' => cases h'; rfl
+  | 1, h' => cases h'; rfl
+  | 2, h' => cases h'; rfl
+  | n+3, h' => simp [threeLeaves] at h'
+
+/-- the healthy map passes (so `detailed_sound` is not vacuous) ... -/
+example : CapsIntact (threeLeaves 1 2 nullId []) ∧ (threeLeaves 1 2 nullId []).checkDetailed Cfg.repaired = .ok none :=
+  ⟨threeLeaves_caps _ _ _, by decide⟩
+/-- ... and each kind of chain damage gives a map that meets the hypotheses of `rejects_chain_damage`
+    (same tree walk, different chain walk) and is refused at the stage shown -/
+example : (threeLeaves 2 2 nullId []).checkDetailed Cfg.repaired = .ok (some .iterCount) ∧          -- skip B
+          (threeLeaves 1 nullId nullId []).checkDetailed Cfg.repaired = .ok (some .iterCount) ∧     -- truncate after B
+          (threeLeaves 2 nullId 1 []).checkDetailed Cfg.repaired = .ok (some .iterUnsorted) ∧       -- misorder: A, C, B
+          (threeLeaves 1 7 nullId []).checkDetailed Cfg.repaired = .ok (some .iterCount) ∧          -- B leads to an unallocated slot
+          (threeLeaves 1 2 nullId [{ cap := 4, keys := [20, 21], vals := [0, 0], next := nullId }]).checkDetailed Cfg.repaired
+            = .ok (some .leafCount) := by decide                                                      -- orphan allocated leaf
+example : (threeLeaves 2 nullId 1 []).leafIds = .ok [0, 1, 2] ∧ (threeLeaves 2 nullId 1 []).firstLeaf = .ok (some 0) ∧
+          (threeLeaves 2 nullId 1 []).chainIds (threeLeaves 2 nullId 1 []).fuel (some 0) = .ok [0, 2, 1] := by decide
 
 end BPT.Props.C14
